@@ -968,6 +968,10 @@ func (e *executor) prepareExprDependencies(
 		)
 	}
 	for _, dependency := range dependencies {
+		if len(dependency) < 2 {
+			// A reference to the data root itself ('$') names neither the workflow input nor a step.
+			return fmt.Errorf("invalid dependency %s in expression %s", dependency.String(), expr.String())
+		}
 		dependencyKind := dependency[1]
 		switch dependencyKind {
 		case WorkflowInputKey:
